@@ -21,8 +21,9 @@ class NoEval(Exception):
 class Opq:
     """A value the evaluation knows nothing about (an external object); methods on it yield further unknowns."""
 
-    def __init__(self, label):
+    def __init__(self, label, expr=None):
         self.label = label
+        self.expr = expr  # None for an input; ("mcall", method, receiver, [args]) / ("bin", op, lhs, rhs) / ("cast", ty, value)
 
     def __repr__(self):
         return "<%s>" % self.label
@@ -188,6 +189,8 @@ class Probe:
                 ce = self.const(segs[0])
                 if ce is not None:
                     return self.ev(ce, {})
+                if self.find_fn(segs) is not None:
+                    return ("fnref_path", e, tuple(self.cur[-1].module) if self.cur else self.module)
                 raise NoEval("name %s" % segs[0])
             ce = self.const(segs[-1])
             if ce is not None:
@@ -212,6 +215,16 @@ class Probe:
             if op in ("==", "!="):
                 r = self.ev(e["lhs"], env) == self.ev(e["rhs"], env)
                 return r if op == "==" else not r
+            l, r = self.ev(e["lhs"], env), self.ev(e["rhs"], env)
+            if isinstance(l, Opq) or isinstance(r, Opq):
+                return Opq("(%r %s %r)" % (l, op, r), ("bin", op, l, r))
+            if isinstance(l, int) and isinstance(r, int) and not isinstance(l, bool):
+                if op in ("+", "-", "*", "<<", ">>", "&", "|", "^"):
+                    return {"+": l + r, "-": l - r, "*": l * r, "<<": l << r, ">>": l >> r, "&": l & r, "|": l | r, "^": l ^ r}[op]
+                if op in ("/", "%") and r != 0:
+                    return l // r if op == "/" else l % r
+                if op in ("<", "<=", ">", ">="):
+                    return {"<": l < r, "<=": l <= r, ">": l > r, ">=": l >= r}[op]
             raise NoEval("operator %s" % op)
         if k == "assign":
             cont, key = self.place(e["lhs"], env)
@@ -275,6 +288,13 @@ class Probe:
             return out
         if k == "closure":
             return ("closure", e, env)
+        if k == "cast":
+            v = self.ev(e["e"], env)
+            if isinstance(v, Opq):
+                return Opq("(%r as %s)" % (v, e["ty"]), ("cast", norm_ty(e["ty"]), v))
+            if isinstance(v, int):
+                return v
+            raise NoEval("cast")
         raise NoEval("expression %s" % k)
 
     def block(self, blk, env):
@@ -315,6 +335,10 @@ class Probe:
                 return self.invoke(fn, None, args)
             if fv[1]["segs"][-2:] == ["String", "from"] and len(args) == 1:
                 return args[0]
+            if len(fv[1]["segs"]) >= 2 and fv[1]["segs"][-1][:1].isupper():
+                return ("enum", "::".join(fv[1]["segs"][-2:]), list(args))
+        if isinstance(fv, tuple) and fv and fv[0] == "enum" and not fv[2]:
+            return ("enum", fv[1], list(args))  # a tuple-variant constructor used as a function
         raise NoEval("not callable")
 
     def invoke(self, fn, self_val, args):
@@ -394,9 +418,10 @@ class Probe:
             if r is not NotImplemented:
                 return r
         if isinstance(recv, Opq):
-            for a in e["args"]:
-                self.ev(a, env)
-            return Opq("%s.%s()" % (recv.label, m))
+            if m in ("clone", "to_owned", "borrow", "as_ref") and not e["args"]:
+                return recv
+            argv = [self.ev(a, env) for a in e["args"]]
+            return Opq("%s.%s(%s)" % (recv.label, m, ", ".join(repr(a) if isinstance(a, Opq) else str(a) for a in argv)), ("mcall", m, recv, argv))
         if isinstance(recv, tuple) and recv and recv[0] in ("ok", "err"):
             if m == "unwrap_or" and len(e["args"]) == 1:
                 d = self.ev(e["args"][0], env)
@@ -426,12 +451,20 @@ class Probe:
             if m == "filter":
                 return recv if recv is not None and self.apply(self.ev(e["args"][0], env), [recv[1]]) else None
             raise NoEval("method %s" % m)
+        if isinstance(recv, tuple) and recv and recv[0] == "enum":
+            fn = self.f.fns.get("%s::%s" % (recv[1].split("::")[0], m))
+            if fn is not None and fn.node.get("self") is not None:
+                return self.invoke(fn, recv, [self.ev(a, env) for a in e["args"]])
         if isinstance(recv, dict) and recv.get("__ty"):
             fn = self.f.fns.get("%s::%s" % (recv["__ty"], m))
             if fn is not None and fn.node.get("self") is not None:
                 return self.invoke(fn, recv, [self.ev(a, env) for a in e["args"]])
         if m in ("as_ref", "as_deref", "as_str", "clone", "to_owned", "to_string", "as_mut", "borrow", "into", "iter", "into_iter", "copied", "cloned") and not e["args"]:
             return copy.copy(recv) if m == "clone" and isinstance(recv, dict) else recv
+        if m == "contains" and isinstance(recv, str) and len(e["args"]) == 1:
+            a = self.ev(e["args"][0], env)
+            if isinstance(a, str):
+                return a in recv
         if m == "is_empty" and isinstance(recv, (str, list)):
             return len(recv) == 0
         if m == "is_some":
